@@ -78,7 +78,7 @@ PROPS["C07"] = dict(
 def c02_configs(tier, seed):
     cfgs = [{"tag": "h_c02-seq", "harness": "h_c02", "np": 1, "args": ["seq"], "asan": True}]
     for n in nps(tier, [1, 2, 3, 5], [1, 2, 3, 4, 5, 6, 8, 12, 16]):
-        cfgs.append({"tag": f"h_c07p-bspmv-np{n}", "harness": "h_c07p", "np": n, "args": ["bspmv"], "asan": n == 2})
+        cfgs.append({"tag": f"h_c07p-bspmv-np{n}", "harness": "h_c07p", "np": n, "args": ["bspmv"], "asan": n == 2, "env": {"PPN": ppn_for(n)}})
     for n in nps(tier, [1, 2, 3, 4, 7], list(range(1, 17))):
         cfgs.append({"tag": f"h_c02-par-np{n}", "harness": "h_c02", "np": n, "args": ["par"], "env": {"PPN": ppn_for(n)}})
     return cfgs
@@ -86,6 +86,7 @@ def c02_configs(tier, seed):
 
 PROPS["C02"] = dict(
     module="RaptorModel.Props.C02",
+    extra_theorem_modules=["RaptorModel.Props.C02Par"],
     harnesses=["h_c02", "h_c07p"],
     configs=c02_configs,
     rule=("sequential: random matrices (0..10, rectangular, empty, duplicates, explicit zeros) in COO/CSR/CSC x 7 kernels; "
@@ -164,12 +165,15 @@ def c04_configs(tier, seed):
     # specification) on multi-node layouts: an exchange that meets the specification is equivalent to the standard one
     for n, ppn in nps(tier, [(4, 2), (6, 3), (8, 2), (6, 1)], [(4, 2), (6, 1), (6, 2), (6, 3), (8, 2), (8, 4), (12, 4), (16, 4)]):
         cfgs.append({"tag": f"h_c03-np{n}-ppn{ppn}", "harness": "h_c03", "np": n, "env": {"PPN": ppn}})
+    # block products (square and rectangular blocks) through the node-aware package against the global product
+    for n, ppn in nps(tier, [(4, 2), (6, 3)], [(4, 2), (6, 3), (8, 2), (12, 4)]):
+        cfgs.append({"tag": f"h_c07p-bspmv-np{n}-ppn{ppn}", "harness": "h_c07p", "np": n, "args": ["bspmv"], "env": {"PPN": ppn}})
     return cfgs
 
 
 PROPS["C04"] = dict(
     module="RaptorModel.Props.C04",
-    harnesses=["h_c04", "h_c03"],
+    harnesses=["h_c04", "h_c03", "h_c07p"],
     configs=c04_configs,
     rule=("(np, PPN, ordering) grid incl. single node, PPN=1, all three orderings; per configuration random layouts/off-process sets; the four "
           "sub-packages of real TAPComm objects (3-step, 2-step, derived by column filtering) are dumped and the Lean certificate (consistency + "
